@@ -261,6 +261,27 @@ def case_sel1(W, cfg):
         W.require("sel1-admissible:" + lab, ok, "metric at %s for an array at %s is none of the registered metrics moved there: %s" % (reg, pos, str(g[0])[:120]))
         if ok:
             W.require("sel1-warns-when-interpolating:" + lab, warned, "interpolated silently")
+        # derivative / metric-weighted interp from here to every other reachable position use the metric at the *result's*
+        # position, i.e. what get_metric gives for an array there (itself checked when the loop reaches that position)
+        for to in layout:
+            if to == pos or "center" not in (pos, to) or plen5(to, N) < 1:
+                continue
+            probe = xr.DataArray(np.zeros(plen5(to, N)), dims=[dimof[to]])
+            try:
+                with warnings.catch_warnings():
+                    warnings.simplefilter("ignore")
+                    m_to = list(grid.get_metric(probe, ("X",)).data)
+                    r = grid.derivative(arr, "X", to=to, boundary="extend")
+                    r2 = grid.interp(arr, "X", to=to, boundary="extend", metric_weighted=("X",))
+            except Exception as e:  # noqa
+                W.fail("sel1-derivative-raises:" + lab, "to=%s: %s: %s" % (to, type(e).__name__, str(e)[:120]))
+                continue
+            d1 = spec_1d(list(a), pos, to, N, "diff", "extend", 0.0)
+            W.require("sel1-derivative-dims:%s->%s" % (lab, to), tuple(r.dims) == (dimof[to],) and len(m_to) == len(d1), "%s" % (r.dims,))
+            if tuple(r.dims) == (dimof[to],) and len(m_to) == len(d1):
+                W.equal("sel1-derivative=diff/metric-at-result:%s->%s" % (lab, to), list(r.data), [x / m for x, m in zip(d1, m_to)], record=False)
+                i1 = spec_1d([x * m for x, m in zip(a, g)], pos, to, N, "interp", "extend", 0.0)
+                W.equal("sel1-metric_weighted-interp:%s->%s" % (lab, to), list(r2.data), [x / m for x, m in zip(i1, m_to)], record=False)
         # integrate uses that metric and sums over the array's dimension
         try:
             r = grid.integrate(arr, "X")
